@@ -36,12 +36,19 @@ def run_one(patch, benign):
         shutil.rmtree(tmp, ignore_errors=True)
 def main():
     names = sys.argv[1:]
+    jout = None
+    if '--json' in names:
+        i = names.index('--json'); jout = names[i + 1]; del names[i:i + 2]
+    allres = []
     pats = sorted(glob.glob(f'{VERIF}/mutants/*.patch')) + sorted(glob.glob(f'{VERIF}/mutants/benign/*.patch'))
     if names:
         pats = [p for p in pats if os.path.basename(p)[:-6] in names]
     bad = 0
     for p in pats:
         r = run_one(p, '/benign/' in p)
+        allres.append(r)
+        if jout:
+            json.dump(allres, open(jout, 'w'), indent=1)
         print(f"{r['status']:12} {r['name']:40} " + ' '.join(f"{k}:rc{v['rc']}/{v['violations']}v/{v['s']}s" for k, v in r.get('fired', {}).items()), flush=True)
         if r['status'] not in ('CAUGHT', 'OK'):
             bad += 1
